@@ -47,15 +47,20 @@ def handler(job):
                                 kernel_params={"sigma": job["sigma"]})
         attrs = lambda: [fl(est.pixel_size), fl(est.birth_range[0]), fl(est.birth_range[1]), fl(est.pers_range[0]), fl(est.pers_range[1]),
                          fl(est.width), fl(est.height), int(est.resolution[0]), int(est.resolution[1])]
-        for op, ds in job["ops"]:
+        skew = bool(job.get("skew", 1))            # False: the data are handed over as (birth, persistence) pairs in every call of the history
+        njobs = job.get("njobs") or [0] * len(job["ops"])
+        for (op, ds), nj in zip(job["ops"], njobs):
             X = data(ds)
             single = len(X) == 1 and job.get("single_as_array", True)
             arg = X[0] if single else X
             before = [x.tobytes() for x in X]
             if op == 1:
-                est.fit(arg); outs = []
+                est.fit(arg, skew=skew); outs = []
             else:
-                r = est.transform(arg) if op == 2 else est.fit_transform(arg)
+                if op == 2:
+                    r = est.transform(arg, skew=skew, n_jobs=nj) if (nj and not single) else est.transform(arg, skew=skew)
+                else:
+                    r = est.fit_transform(arg, skew=skew)
                 imgs = [r] if single else list(r)
                 outs = [[1000 * ds + j, dig(im)] for j, im in enumerate(imgs)]
             evs.append(dict(op=op, ds=ds, attrs=attrs(), statekey=dig_state(attrs()), outs=outs, mutated=[x.tobytes() for x in X] != before))
